@@ -6,7 +6,7 @@ import json
 from .kitchen import Case, Docs, run_cases, types_of, defs_of
 from .schemagen import SchemaGen
 
-CODE = {1: "verdict", 2: "decoded value", 3: "generator status", 4: "model out of fuel", 5: "outside the modelled fragment"}
+CODE = {1: "verdict", 2: "decoded value", 3: "generator status", 4: "model out of fuel", 5: "outside the modelled fragment", 6: "emitted declarations (static tie)"}
 
 
 def build_cases(ctx, n, focus, classes, prefix, gen_kwargs=None, docs_per=3, extra_schemas=(), minsized=False, fam="random", max_docs=120, schema_hook=None):
@@ -200,6 +200,21 @@ def evaluate(ctx, cases, oracle_classes, expect, what, skip=None):
                       "%s: the implementation differs from the model (%s) on %s; no document inside the guard contradicts the property"
                       % (what, CODE.get(code, code), json.dumps(c.docs[di]["doc"])[:200] if di is not None else "generation"), no_input=True)
     return nviol
+
+
+def report_tie(ctx, cases, what):
+    """the correspondence step for cases judged by an explicit expectation: any difference between the model and the implementation (verdict,
+    decoded value, emitted declarations) is reported when no oracle violation was found"""
+    real = [(c, di, code) for c in cases for di, code in c.mismatches if code != 5]
+    ctx.cov["unmodelled_cases"] = ctx.cov.get("unmodelled_cases", 0) + sum(1 for c in cases for _, code in c.mismatches if code == 5)
+    ctx.cov["model_mismatches"] = ctx.cov.get("model_mismatches", 0) + len(real)
+    if real and not ctx.violations:
+        c, di, code = real[0]
+        ctx.violation("tie", dict(c.replay_obj(di), correspondence="RunCore.case_mismatches (Model/Gen + Model/Exec vs generated code): %s differs; %d differing observations in this run"
+                                  % (CODE.get(code, code), len(real))),
+                      "%s: the implementation differs from the model (%s) on %s; no document inside the guard contradicts the property"
+                      % (what, CODE.get(code, code), json.dumps(c.docs[di]["doc"])[:200] if di is not None else "generation"), no_input=True)
+    return len(real)
 
 
 def replay(ctx, path):
